@@ -242,12 +242,17 @@ func TestCheck(t *testing.T) {
 	r.Rule("cell = (method, outcome class per primary/fallback node, gate-opening order per tier, caller-cancel point) run against a fresh real eth2wrap.NewMultiForT client whose nodes block on harness gates. " +
 		"Part 1 enumerates EVERY vector of the 14 core classes (ok, not-ok, hang, 8 unavailability/ambiguous, 3 other errors) x every gate order for all shapes with <= 3 nodes " +
 		"(quick: one PRNG-chosen applicable method per cell; thorough: every applicable method) and, for shapes with <= 2 nodes, additionally every caller-cancellation point x {cancel, deadline}; part 2 samples up to 4 primaries x 3 fallbacks with 23 classes, nodes answering immediately, nodes ignoring their context, " +
-		"cancel/deadline before the call, during primaries, during fallbacks; part 3 runs concurrent calls through one client. " +
+		"cancel/deadline before the call, during primaries, during fallbacks; part 3 runs concurrent calls through one client; " +
+		"part 4 (HTTP world) runs the production client eth2wrap.NewMultiHTTP (multi -> lazy first-use initialisation -> go-eth2-client) with a 60 s per-node timeout against 1-3 primary and 0-2 fallback loopback HTTP nodes " +
+		"that answer with node-unique payloads, refuse connections, answer 503 to everything, answer 400/404/503 on the endpoint only, report syncing, and block their handlers on harness gates during the client's first-use initialisation or on the endpoint afterwards; " +
+		"provide-style (NodePeerCount, AttestationData) and submit-style (SubmitAttestations, SubmitProposalPreparations) calls; the caller cancels / hits its deadline while nodes hang. " +
 		"non-trivial = at least 2 nodes were called and an ordering decision mattered (a gate still closed at return, fallbacks consulted, or caller cancelled); distinct = hash of the cell script")
 	r.Assume("scripted nodes honour their context unless flagged ignores_ctx; caller cancellation with a pending node that ignores its context is observed, not judged (forkjoin's join loop cannot return before such a node does)")
 	r.Assume("unavailability per statement = timeout text, context deadline exceeded, syncing text, 502/503/504, ECONNREFUSED, EHOSTUNREACH, net.Error timeouts; 400/404/plain errors are not; " +
 		"generic net.Error, ECONNRESET, 'client is not active', 500, ErrAbortHandler, spurious context.Canceled, HeadBlockNotFullyVerified are ambiguous and never judged")
 	r.Assume("cells whose primaries fail with mixed classes, or answer without error but not-ok, are unspecified by the statement: only the universal rules apply (exactly one open node's answer, or an error)")
+	r.Assume("HTTP world: verdicts are causal on server-side evidence (handlers still blocked, requests received by fallback nodes); the 60 s per-node timeout is never reached in a run that is judged; " +
+		"a node that reports is_syncing (go-eth2-client then fails duty endpoints locally with 'client is not synced') and a node lost after successful initialisation (connection refused / 'client is not active') are unavailability: when every primary fails with an unavailability class and a fallback with a live server exists, a fallback must receive a request")
 	r.RacePkgs(false, "app/eth2wrap", "app/forkjoin")
 
 	methodsPerCell := 1
@@ -261,7 +266,11 @@ func TestCheck(t *testing.T) {
 	if r.Thorough() {
 		nSample, nBurst = 600000, 20000
 	}
-	total := nEnum + nEnumCancel + nSample + nBurst
+	nHTTP := 1200
+	if r.Thorough() {
+		nHTTP = 12000
+	}
+	total := nEnum + nEnumCancel + nSample + nBurst + nHTTP
 	n := r.N(total, total)
 	complete := n >= total
 	r.Set("enumerated_subspace_cells", enumTotal)
@@ -277,6 +286,11 @@ func TestCheck(t *testing.T) {
 	r.Require("first_success_returned_with_other_gates_closed", 100)
 	r.Require("fallback_consulted_on_unavailability", 100)
 	r.Require("fallback_not_consulted_on_other_error", 30)
+	r.Require("http/cancel_returned_with_handlers_still_blocked", 100)
+	r.Require("http/first_success_returned_with_other_handlers_blocked", 50)
+	r.Require("http/fallback_consulted_on_unavailability", 30)
+	r.Require("http/cells_all_unavailable_with_syncing_primary_and_live_fallback", 30)
+	r.Require("http/cells_all_unavailable_with_primary_lost_after_initialisation_and_live_fallback", 20)
 
 	stride := 7919
 	for gcd(stride, nEnum) != 1 {
@@ -325,8 +339,11 @@ func TestCheck(t *testing.T) {
 		case idx < nEnum+nEnumCancel+nSample:
 			r.Count("sampled_cells_run", 1)
 			runCell(c, sampleCell(c.Rng))
-		default:
+		case idx < nEnum+nEnumCancel+nSample+nBurst:
 			runBurst(c, burstCell(c.Rng))
+		default:
+			r.Count("http_cells_run", 1)
+			runHTTPCell(c, sampleHTTPCell(c.Rng))
 		}
 	})
 	r.Set("cells_table", sortedTable())
